@@ -45,8 +45,8 @@ func (x *rngReader) Read(p []byte) (int, error) {
 
 func quicCID(b []byte) protocol.ConnectionID { return protocol.ParseConnectionID(b) }
 
-// hxs prints a byte string as the Coq term (hx "..") : list Z.
-func hxs(b []byte) string { return u.App("hx", u.Hex(b)) }
+// tokHxs prints a byte string as the Coq term (hx "..") : list Z.
+func tokHxs(b []byte) string { return u.App("hx", u.Hex(b)) }
 
 type strAddr string
 
@@ -68,9 +68,9 @@ func (a tokAddr) net() net.Addr {
 }
 func (a tokAddr) coq() string {
 	if a.udp {
-		return u.App("UDPAddr", hxs(a.ip), u.Z(int64(a.port)))
+		return u.App("UDPAddr", tokHxs(a.ip), u.Z(int64(a.port)))
 	}
-	return u.App("StrAddr", hxs([]byte(a.s)))
+	return u.App("StrAddr", tokHxs([]byte(a.s)))
 }
 func (a tokAddr) String() string {
 	if a.udp {
@@ -344,8 +344,8 @@ func tokenCase(w *bufio.Writer, r *u.Rng, idx int, g1, g2 *handshake.TokenGenera
 	valid := false
 	if class == 2 {
 		valid = quic.VerifValidateToken(dec, a1.net(), maxTokenAge, hsIdle)
-		tokTerm = u.Opt(true, u.App("Tok", u.B(dec.IsRetryToken), u.Z(dec.SentTime.UnixNano()), hxs(handshake.VerifTokenAddr(dec)),
-			hxs(dec.OriginalDestConnectionID.Bytes()), hxs(dec.RetrySrcConnectionID.Bytes()), u.Z(int64(dec.RTT))))
+		tokTerm = u.Opt(true, u.App("Tok", u.B(dec.IsRetryToken), u.Z(dec.SentTime.UnixNano()), tokHxs(handshake.VerifTokenAddr(dec)),
+			tokHxs(dec.OriginalDestConnectionID.Bytes()), tokHxs(dec.RetrySrcConnectionID.Bytes()), u.Z(int64(dec.RTT))))
 	}
 	if quic.VerifValidateToken(nil, a1.net(), maxTokenAge, hsIdle) {
 		monfail("token/nil-valid", "validateToken(nil) = true")
@@ -453,21 +453,21 @@ func tokenCase(w *bufio.Writer, r *u.Rng, idx int, g1, g2 *handshake.TokenGenera
 	plain, opened := handshake.VerifTokenOpen(g1, presented)
 	openT, recT := "None", "None"
 	if opened {
-		openT = u.Opt(true, hxs(plain))
+		openT = u.Opt(true, tokHxs(plain))
 		rec := handshake.VerifTokenUnmarshal(plain)
 		if rec.OK {
-			recT = u.Opt(true, u.Pair(u.App("Rec", u.B(rec.IsRetry), hxs(rec.Addr), u.Z(rec.Ts), u.Z(rec.RTT), hxs(rec.ODCID), hxs(rec.RSCID)), u.Z(int64(rec.RestLen))))
+			recT = u.Opt(true, u.Pair(u.App("Rec", u.B(rec.IsRetry), tokHxs(rec.Addr), u.Z(rec.Ts), u.Z(rec.RTT), tokHxs(rec.ODCID), tokHxs(rec.RSCID)), u.Z(int64(rec.RestLen))))
 		}
 	}
-	outT := u.App("Out", u.Z(int64(out.Kind)), u.B(out.AddrVerified), hxs(out.ODCID), u.Opt(out.HasRSCID, hxs(out.RSCID)), u.Z(out.RTT))
+	outT := u.App("Out", u.Z(int64(out.Kind)), u.B(out.AddrVerified), tokHxs(out.ODCID), u.Opt(out.HasRSCID, tokHxs(out.RSCID)), u.Z(out.RTT))
 	nt := 0
 	if class == 2 {
 		nt = 1
 		dist["nontrivial"]++
 	}
 	dist["cases"]++
-	fmt.Fprintf(w, "CASE %d %s\n", nt, u.App("TokCase", hxs(presented), openT, recT, a1.coq(), u.Z(now.UnixNano()), u.Z(int64(maxTokenAge)), u.Z(int64(hsIdle)),
-		u.Z(int64(verifySrc)), hxs(dcid), u.Z(int64(class)), tokTerm, u.B(valid), outT))
+	fmt.Fprintf(w, "CASE %d %s\n", nt, u.App("TokCase", tokHxs(presented), openT, recT, a1.coq(), u.Z(now.UnixNano()), u.Z(int64(maxTokenAge)), u.Z(int64(hsIdle)),
+		u.Z(int64(verifySrc)), tokHxs(dcid), u.Z(int64(class)), tokTerm, u.B(valid), outT))
 	if idx < 3 {
 		fmt.Fprintf(w, "SAMPLE\t%s => decode=%d valid=%v outcome=%d verified=%v\n", strings.Join(human, " "), class, valid, out.Kind, out.AddrVerified)
 	}
